@@ -38,7 +38,7 @@ func init() {
 	register(&Check{ID: "C05", Level: "fault_enumeration",
 		Rule: "histories of ~200 exchanges (unique qname, random caller ID) through one PipelineTransport per history; per history: framing tcp|udp, MaxConcurrentQuery 1|4|64|4096, " +
 			"1..256 concurrent callers, per-query server behaviour (in order, reversed within a window, delayed, duplicated 2-3x, dropped, unsolicited with never/not-yet/already-answered ID, late after the caller cancelled, garbage, half frame, FIN, RST), " +
-			"caller cancellation at random points; plus ID-exhaustion runs (70 000 sequential + 70 000 concurrent exchanges through one transport), a server that stalls in the middle of a frame, the TCP fallback of udp upstreams with a dead TCP side, and a udp:// upstream built with the real constructor whose every query is first answered by a forged datagram (right wire id and question, sent from another port of the server's address or from another local address) and 3 ms later by the server itself: no exchange may return a forged one. One evaluation = one exchange judged by R1-R4/R6 or one connection judged by R5. " +
+			"caller cancellation at random points; plus ID-exhaustion runs (70 000 sequential + 70 000 concurrent exchanges through one transport), a server that stalls in the middle of a frame, the TCP fallback of udp upstreams with a dead TCP side, and a udp:// upstream built with the real constructor whose every query is first answered by a forged datagram (right wire id and question, sent from another port of the server's address or from another local address) and 3 ms later by the server itself: no exchange may return a forged one; 2-8 concurrent exchanges with byte-identical queries apart from the caller's ID (no reply returned twice, as many queries on the wire as exchanges that returned). One evaluation = one exchange judged by R1-R4/R6 or one connection judged by R5. " +
 			"Distinct non-trivial cases = distinct tuples (framing, MaxConcurrentQuery, caller concurrency, server behaviour for the exchange, outcome class, whether the returned reply was sent out of query order) " +
 			"plus distinct server-side event orders of histories that contained at least one reordered, duplicated, unsolicited or late-after-cancel reply",
 		Run: runC05})
@@ -102,6 +102,7 @@ func runC05(c *Ctx) {
 			c05Stall(c)
 			c05Fallback(c)
 			c05Spoof(c)
+			c05Twins(c)
 			return
 		}
 		if w.Params.Profile == "exhaustion" {
@@ -119,6 +120,7 @@ func runC05(c *Ctx) {
 		return
 	}
 	c05Spoof(c)
+	c05Twins(c)
 	nHist := c.N(200, 10000)
 	var exhaustDone sync.WaitGroup
 	// the exhaustion run is CPU bound and long; overlap it with the (mostly sleeping) histories
